@@ -851,13 +851,35 @@ class TorConfig:
         """
 
         conf = parse_keywords(arg, multiline_values=False)
+        defaults = self.__dict__['_defaults']
+        error = None
         for (k, v) in conf.items():
             # v will be txtorcon.DEFAULT_VALUE already from
             # parse_keywords if it was unspecified
             real_name = self._find_real_name(k)
             if real_name in self.parsers:
-                v = self.parsers[real_name].parse(v)
+                # same treatment as the initial values get in _do_setup
+                parser = self.parsers[real_name]
+                try:
+                    if is_list_config_type(parser.__class__):
+                        v = parser.parse(v)
+                        if v == [DEFAULT_VALUE]:
+                            v = defaults.get(real_name, [])
+                            if not isinstance(v, list):
+                                v = [v]
+                        v = _ListWrapper(
+                            v, functools.partial(self.mark_unsaved, real_name))
+                    elif v != DEFAULT_VALUE:
+                        v = parser.parse(v)
+                    elif real_name in defaults:
+                        v = parser.parse(defaults[real_name])
+                except (ValueError, TypeError) as e:
+                    # still apply the other options of this event
+                    error = error or e
+                    continue
             self.config[real_name] = v
+        if error is not None:
+            raise error
 
     def bootstrap(self, arg=None):
         '''
